@@ -178,9 +178,24 @@ func init() {
 		fv.assume(e, implies(ok, and(eq(not(eq(v.T, tNull)), present), implies(present, eq(fv.bytesID(e, v), sel(fv.kvValArr(e), kid))), implies(not(present), eq(v.Len, intLit(0))))))
 		return Value{K: kTuple, Tuple: []Value{v, err}}, true
 	}
+	libModelDocs[tree+"RemoveExisting"] = "T-KV: returns the stored bytes (non-nil iff present) and removes the key"
+	libModels[tree+"RemoveExisting"] = func(fv *FV, e *Env, x *ast.CallExpr, recv *Value, args []Value) (Value, bool) {
+		r, ok := get(fv, e, x, recv, args)
+		if !ok {
+			return r, false
+		}
+		kid := keyOf(fv, e, args[1])
+		okT := eq(r.Tuple[1].T, tNull)
+		dom := fv.kvDomArr(e)
+		fv.storeComp(e, kvDom, arrSort(sInt, sBool), ite(okT, store(dom, kid, tFalse), fv.s.freshConst("kvdom?", dom.Sort)), tNull)
+		fv.kvBumpWrites(e, okT)
+		return r, true
+	}
 	libModelDocs[tree+"Get"] = "T-KV: returns the stored bytes (non-nil) iff the key is present"
 	libModels[tree+"Get"] = get
 	libModels[itree+"Get"] = get
+	libModels["(*"+modPrefix+"consensus/cometbft/api.ImmutableState).Get"] = get
+	libModelDocs["(*"+modPrefix+"consensus/cometbft/api.ImmutableState).Get"] = "delegates to the state tree's Get (T-KV)"
 	libModelDocs[itree+"Get"] = libModelDocs[tree+"Get"]
 }
 
